@@ -36,8 +36,26 @@ def main():
     except common.InfraError as e:
         print('INFRA-ERROR', e)
         return 2
-    except Exception:
+    except Exception as e:
         traceback.print_exc()
+        # An exception that comes out of the implementation under test while the harness drives it (never seen on the
+        # unchanged tree, where every check completes) means a step of the correspondence can no longer be carried out:
+        # that is a broken obligation, reported like any other (with the failing inputs found so far, or as
+        # no-failing-input-found), not an infrastructure problem.
+        repo = os.path.realpath(common.REPO)
+        frames = traceback.extract_tb(e.__traceback__)
+        inside = [f for f in frames if os.path.realpath(f.filename).startswith(repo + os.sep)]
+        if inside and not a.replay:
+            last = inside[-1]
+            run.oblige('harness:every-step-completes-on-the-implementation', 'correspondence', False,
+                       '%s: %s raised at %s:%d (%s) while the harness was driving the implementation; harness frames: %s'
+                       % (type(e).__name__, str(e)[:300], os.path.relpath(last.filename, repo), last.lineno, last.name,
+                          ' <- '.join('%s:%d' % (os.path.basename(f.filename), f.lineno) for f in frames
+                                      if not os.path.realpath(f.filename).startswith(repo + os.sep))[-400:]))
+            try:
+                return run.finish()
+            except Exception:
+                traceback.print_exc()
         print('INFRA-ERROR unexpected exception in harness')
         return 2
 
